@@ -2,17 +2,17 @@ SPECIFICATION Spec
 CONSTANTS
   Closers = {"k1"}
   Requesters = {"r1"}
-  MaxDebounce = 1
+  MaxDebounce = 0
   MaxEvents = 0
   MaxProbeFail = 0
-  MaxCtlFail = 0
+  MaxCtlFail = 1
   MaxAddHost = 0
   OnlyDebouncer = FALSE
-  WithControl = FALSE
-  Defect_StopHandshake = TRUE
+  WithControl = TRUE
+  Defect_StopHandshake = FALSE
   Defect_HeartbeatStart = FALSE
   Defect_LatePool = FALSE
-  Defect_ReconnectWindow = FALSE
+  Defect_ReconnectWindow = TRUE
   Defect_ReconnectInline = FALSE
   Mut = "none"
 INVARIANTS TypeOK NoPanic AllClosedAfterClose QueryAfterClose CancelAfterPools
